@@ -242,9 +242,15 @@ func runC02own(c *core.Ctx) {
 				}
 				n++
 				okk, w, _ := condMust(c, closure, nil, func(x ssa.Instruction) bool { return x == in }, func(ssa.Instruction) bool { return false }, []string{
-					"T:(const(0) == fld(TxnStatus.ttl,*", "T:fld(LockInfo.UseAsyncCommit,*",
+					"T:(const(0) == fld(TxnStatus.ttl,*", "T:invoke(oracle.Oracle.IsExpired)#0*", "T:(fld(LockResolver.store,*) == nil)",
 				})
 				a.check(okk, fname(closure)+" lock removal needs ttl==0 or expiry", in, "", "a lock whose transaction is alive (status ttl ≠ 0, not expired on the resolver's clock) can be resolved / rolled back: "+a.w(w))
+				// … and, while the transaction still has a ttl, only on the async-commit path (an expired ttl alone
+				// makes the reader wait, it does not entitle it to remove the lock)
+				okk2, w2, _ := condMust(c, closure, nil, func(x ssa.Instruction) bool { return x == in }, func(ssa.Instruction) bool { return false }, []string{
+					"T:(const(0) == fld(TxnStatus.ttl,*", "T:fld(LockInfo.UseAsyncCommit,*",
+				})
+				a.check(okk2, fname(closure)+" with a live ttl only an async-commit lock is removed", in, "", "a lock whose transaction still reports a ttl is resolved although it is not an (expired) async-commit lock: a reader with a lagging clock rolls back a secondary of a running committer: "+a.w(w2))
 			})
 			a.checkAt(n >= 4, fname(closure)+" removal sites", a.fnPos(closure), fmt.Sprint(n), "lock-removal sites not found")
 			// expiry operands
